@@ -68,13 +68,13 @@ NO_SIM = bool(os.environ.get("VERIF_HYDROPROG_NO_SIM"))
 TRIVIAL_OPS = {"in1", "in2", "out", "map", "mkkv", "vals", "filter", "flatmap", "unique", "enum", "weaken", "assume"}
 
 
-def _gen_cfg(name, maxstmts, vocab, maxtc, maxfwd, place_e, prune=True, emit=True):
+def _gen_cfg(name, maxstmts, vocab, maxtc, maxfwd, place_e, prune=True, emit=True, unused=0):
     p = os.path.join(vlib.rundir("cfg"), name)
     with open(p, "w") as f:
         f.write("SPECIFICATION Spec\nCONSTANTS\n  MaxStmts = %d\n  Vocab = {%s}\n  MaxTC = %d\n  MaxFwd = %d\n"
-                "  PlaceE = {%s}\n  PRUNE = %s\n  EMIT = %s\nINVARIANTS Finished StepOK Emit\nCHECK_DEADLOCK FALSE\n"
+                "  PlaceE = {%s}\n  AllowUnused = %d\n  PRUNE = %s\n  EMIT = %s\nINVARIANTS Finished StepOK Emit\nCHECK_DEADLOCK FALSE\n"
                 % (maxstmts, ", ".join('"%s"' % o for o in vocab), maxtc, maxfwd,
-                   ", ".join('"%s"' % e for e in place_e), "TRUE" if prune else "FALSE", "TRUE" if emit else "FALSE"))
+                   ", ".join('"%s"' % e for e in place_e), unused, "TRUE" if prune else "FALSE", "TRUE" if emit else "FALSE"))
     return p
 
 
@@ -212,7 +212,7 @@ def run(tier):
     with concurrent.futures.ThreadPoolExecutor(max_workers=4) as ex:
         f_all4 = ex.submit(_enumerate, "all4", res, maxstmts=4, vocab=ALL_OPS, maxtc=1, maxfwd=1, place_e=["i"])
         f_simq = ex.submit(_simulate, "sim_q", res, 700, 1000 + vlib.seed(), maxstmts=8, vocab=ALL_OPS, maxtc=1,
-                           maxfwd=1, place_e=["i", "kv"])
+                           maxfwd=1, place_e=["i", "kv"], unused=1)
         if thorough:
             # pruning self-check: with and without the feasibility pruning the same programs come out
             f_a = ex.submit(_enumerate, "selfcheck_pruned", None, maxstmts=3, vocab=ALL_OPS, maxtc=1, maxfwd=1, place_e=["i"])
@@ -244,7 +244,8 @@ def run(tier):
             pool_t[gen.term_name(t)] = t
         with concurrent.futures.ThreadPoolExecutor(max_workers=4) as ex:
             futs = [ex.submit(_simulate, "sim_t%d" % i, vlib.PropResult("C41"), 2500, 2000 + 10 * vlib.seed() + i,
-                              maxstmts=9, vocab=ALL_OPS, maxtc=2, maxfwd=1, place_e=["i", "kv"]) for i in range(4)]
+                              maxstmts=9, vocab=ALL_OPS, maxtc=2, maxfwd=1, place_e=["i", "kv"], unused=1 + i % 2)
+                    for i in range(4)]
             for f in futs:
                 for t in f.result():
                     pool_t[gen.term_name(t)] = t
